@@ -651,3 +651,18 @@ Definition ok_diff_stdout (base pair : list node) (out : list dline) : bool :=
   forallb (ok_dline base pair) out
   && list_eqb (sort_names (map fst out))
               (sort_names (map n_name base ++ map n_name (filter (fun p => match find_node base (n_name p) with Some _ => false | None => true end) pair))).
+
+(* comparison of a printed --diff table with the model up to the order of rows whose |difference| is equal
+   (cmp_diff returns -1 in both directions for +x / -x, so that order depends on the shape of the rb-tree) *)
+Fixpoint insert_dline (x : dline) (l : list dline) : list dline :=
+  match l with [] => [x] | y :: t => if fst x <=? fst y then x :: l else y :: insert_dline x t end.
+Definition sort_dlines (l : list dline) : list dline := fold_right insert_dline [] l.
+Definition absdiff_of (base pair : list node) (nm : N) : N :=
+  let b := match find_node base nm with Some n => n | None => zero_node nm end in
+  let p := match find_node pair nm with Some n => n | None => zero_node nm end in
+  absdiff (b, p).
+Fixpoint nonincreasing (l : list N) : bool :=
+  match l with a :: ((b :: _) as t) => (b <=? a) && nonincreasing t | _ => true end.
+Definition diff_stdout_agrees (base pair : list node) (out : list dline) : bool :=
+  dlines_eqb (sort_dlines (diff_stdout base pair)) (sort_dlines out)
+  && nonincreasing (map (fun l => absdiff_of base pair (fst l)) out).
